@@ -106,7 +106,7 @@ package swagen31
 // under that path for other verbs, and all other paths, are kept.
 // ghost marker: one event per call of setNewRouteOperation (the only function whose frame contains path items)
 //@ event routeRegistered31(operationId string) local
-//@ func setNewRouteOperation props C01,C11,C14
+//@ func setNewRouteOperation props C01,C08,C11,C14
 //@ emits routeRegistered31(route.OperationId)
 //@ requires doc != nil && operation != nil && implies(doc.Paths != nil, doc.Paths.PathItems != nil && doc.Paths.PathItems.OrderedMap != nil)
 //@ modifies doc.Paths, any(v3.PathItem), any(elems(map[string]*v3.PathItem))
